@@ -51,9 +51,9 @@ theorem li_head_ns {c : Char} {x r : List Char} {t : Tok} (ht : isLI t = true) (
       rw [litRules_head _ hf hq hp hm] at this
       cases this
     | ident i =>
-      have : scanIdent E (c :: x) = some (i, r) := lexOne_src h
-      rw [scanIdent_head hf.ident] at this
-      cases this
+      have hl := src_ident_letter (lexOne_src h)
+      have := (letter_imp c hl).2.1
+      rw [hs] at this; cases this
     | _ => simp [isLI] at ht
 
 theorem TokOk.head {t : Tok} (ht : isLI t = true) (h : TokOk t) :
@@ -170,8 +170,7 @@ theorem TokOk.nodigit {t : Tok} (ht : isLI t = true) (h : TokOk t) (hu : isUnsig
     rw [hs] at ha
     cases t with
     | ident i =>
-      have hsrc : scanIdent E (c :: s0) = some (i, []) := lexOne_src ha
-      have := isIdentStart_imp c (scanIdent_inv hsrc).1
+      have := src_ident_letter (lexOne_src ha)
       rcases this with h1 | h1
       · exact hnl h1
       · exact h95 h1
